@@ -144,18 +144,21 @@ def write_replay(path, d, extra_comments=()):
             f.write('\n')
 
 
-def replay_once(exe, spec, path, timeout=60):
-    """returns (failed, output)"""
+def replay_once(exe, spec, path, timeout=60, want_kind=False):
+    """returns (failed, output[, kind]) with kind in pass / fail / hang / died"""
     try:
         if spec.get('kind') == 'script':
             cmd = [spec.get('interp', 'python3'), exe, 'replay', path]
         else:
-            cmd = [exe, 'replay', path, '--watchdog', '4']
+            cmd = [exe, 'replay', path, '--watchdog', '1']
         r = subprocess.run(cmd, stdout=subprocess.PIPE, stderr=subprocess.STDOUT, text=True, timeout=timeout,
                            env=run_env(spec), errors='replace')
-        return r.returncode != 0, r.stdout
+        kind = 'pass' if r.returncode == 0 else 'fail' if r.returncode == 1 else 'hang' if r.returncode == 4 else 'died'
+        res = (r.returncode != 0, r.stdout)
     except subprocess.TimeoutExpired as e:
-        return True, 'TIMEOUT after %ds' % timeout
+        kind = 'hang'
+        res = (True, 'TIMEOUT after %ds' % timeout)
+    return res + (kind,) if want_kind else res
 
 
 def minimise_crash(exe, spec, d, workdir, budget=160):
@@ -163,19 +166,24 @@ def minimise_crash(exe, spec, d, workdir, budget=160):
     tmp = os.path.join(workdir, 'min.case')
     calls = [0]
 
+    want = [None]
+
     def fails(tape):
         if calls[0] >= budget:
             return False
         calls[0] += 1
         dd = dict(d, tape=tape, comments=[])
         write_replay(tmp, dd)
-        return replay_once(exe, spec, tmp, timeout=30)[0]
+        f, o, kind = replay_once(exe, spec, tmp, timeout=30, want_kind=True)
+        if want[0] is None:
+            want[0] = kind
+        return f and kind == want[0]  # keep the kind of failure: an assert must not drift into a hang
 
     tape = list(d['tape'])
-    if any('hang' in cm for cm in d.get('comments', [])):
-        budget = min(budget, 24)  # every replay of a hang costs a watchdog period
     if not fails(tape):
         return d, calls[0], False
+    if want[0] == 'hang':
+        budget = min(budget, 40)  # every replay of a hang costs a watchdog period
     # shortest failing prefix
     lo, hi = 0, len(tape)
     while lo < hi:
